@@ -228,6 +228,16 @@ impl Sender {
                 rep.violation("C11", sig(&format!("buffer-of-7-or-more-{}", if out.res.is_err() { "panics" } else { "rejected" })), || format!("{} {}: {}", Self::describe(spec), what, enc_res_str(&out.res)), replay);
             }
         }
+        // C11: "a buffer that cannot carry anything useful is REJECTED": a continuation call on a valid context
+        // that panics on a short buffer is not a rejection
+        if mask & O_C11 != 0 && spec.func == Func::Frag && bl < 7 && spec.pdu.len() <= 65535 {
+            let c = spec.ctx.unwrap();
+            if (c.len_pdu_frag() as usize) <= spec.pdu.len() {
+                if let Err(p) = &out.res {
+                    rep.violation("C11", sig("useless-buffer-panics-instead-of-being-rejected"), || format!("{} panicked: {}", Self::describe(spec), p), replay);
+                }
+            }
+        }
         match &out.res {
             Err(p) => {
                 if mask & O_C09 != 0 {
